@@ -16,8 +16,11 @@ RULE = ("r0 log-uniform [0.01,5], L0 log-uniform [0.1,1e7] (the large-L0 tail on
         "relations, eigenvalues. Non-trivial = array input spanning r < L0/100 and r > L0, or a point set with >= 5 "
         "points, or an exact zero separation. Distinct = canonical JSON.")
 ASSUMPTIONS = ["published constants are rounded: 0.17253 vs 0.172629 (5.7e-4), 0.023 vs 0.022896 (4.6e-3), 6.88 vs 6.8839 (5.7e-4): ratios must lie in the rounding band AND be constant across arguments",
-               "phase_covariance works in float32 by design: tolerance 8*eps32 of B(0)",
+               "phase_covariance is evaluated in double precision at the separations it is given (since fix c71a5fd): tolerance 1e-12 of B(0); positive semi-definite to n 64 eps64 B(0)",
                "structure_function_vk accepts floats and ndarrays (not lists), phase_covariance also lists"]
+
+
+TOLB = 1e-12
 
 
 def T():
@@ -73,7 +76,7 @@ def sep_body(ctx, case):
         flat_r = r
         covm = np.asarray(quiet(turb.phase_covariance, r.copy(), r0, L0), dtype=np.float64)
         ctx.require(covm.shape == r.shape, "phase_covariance of a 2-D separation array: shape %s" % (covm.shape,))
-        ctx.close(covm, vk.B(r.astype(np.float32).astype(np.float64), r0, L0), 16 * EPS32, "phase_covariance on a square non-symmetric 2-D separation array is element-wise", scale=B0, name="B matrix elementwise")
+        ctx.close(covm, vk.B(r, r0, L0), TOLB, "phase_covariance on a square non-symmetric 2-D separation array is element-wise", scale=B0, name="B matrix elementwise")
         dm = np.asarray(quiet(sc.structure_function_vk, r.copy(), r0, L0), dtype=np.float64)
         ctx.close(dm, np.asarray(quiet(sc.structure_function_vk, r.ravel().copy(), r0, L0), dtype=np.float64).reshape(r.shape), 1e-15, "structure_function_vk on a 2-D array is element-wise", scale=float(np.max(np.abs(dm))) or 1.0, name="D matrix elementwise")
         r = r.ravel()
@@ -87,8 +90,9 @@ def sep_body(ctx, case):
     cov = np.atleast_1d(np.asarray(quiet(turb.phase_covariance, a, r0, L0), dtype=np.float64))
     ctx.require(cov.shape == r.shape, "phase_covariance output shape %s for input %s" % (cov.shape, r.shape))
     ctx.require(bool(np.all(np.isfinite(cov))), "phase_covariance not finite (r=%r, r0=%r, L0=%r): %r" % (r.tolist(), r0, L0, cov.tolist()))
-    r32 = r.astype(np.float32).astype(np.float64)            # the separations the function actually sees
-    ctx.close(cov, vk.B(r32, r0, L0), 16 * EPS32, "phase_covariance vs independent von Karman covariance", scale=B0, name="B vs oracle")
+    r32 = r.astype(np.float32).astype(np.float64)
+    seen = r32 if form == "array32" else r                   # the separations the function is given (evaluated in double precision)
+    ctx.close(cov, vk.B(seen, r0, L0), TOLB, "phase_covariance vs independent von Karman covariance", scale=B0, name="B vs oracle")
     # --- structure function (slope-covariance copy) vs closed form: ratio in the rounding band and constant
     s = arg(r, allow_list=False)
     d = np.atleast_1d(np.asarray(quiet(sc.structure_function_vk, s, r0, L0), dtype=np.float64))
@@ -113,7 +117,7 @@ def sep_body(ctx, case):
     ctx.require(math.isfinite(cov0), "phase_covariance(0, r0=%r, L0=%r) = %r" % (r0, L0, cov0))
     lhs = d
     rhs = 2 * (cov0 - cov)
-    tol = 1e-3 * np.abs(KR * vk.D(r32, r0, L0)) + 32 * EPS32 * 2 * B0 + np.abs(KR * (vk.D(r32, r0, L0) - Dxs))
+    tol = 1e-3 * np.abs(KR * vk.D(seen, r0, L0)) + (64 * EPS32 if f32 else 1e-13) * 2 * B0 + np.abs(KR * (vk.D(seen, r0, L0) - Dxs))
     ctx.require(bool(np.all(np.abs(lhs - rhs) <= tol)), "D(r) != 2(B(0)-B(r)): %r vs %r (r=%r r0=%r L0=%r)" % (lhs.tolist(), rhs.tolist(), r.tolist(), r0, L0))
     # --- monotone, saturation, r0 scaling
     order = np.argsort(rs, kind="stable")
@@ -126,7 +130,7 @@ def sep_body(ctx, case):
     dk = np.atleast_1d(np.asarray(quiet(sc.structure_function_vk, s, r0 * k, L0), dtype=np.float64))
     ctx.close(dk, d * k ** (-5.0 / 3), 1e-12, "structure function scales as r0^(-5/3)", scale=float(np.max(np.abs(d))) * k ** (-5.0 / 3) or 1.0, name="r0 scaling D")
     ck = np.atleast_1d(np.asarray(quiet(turb.phase_covariance, arg(r), r0 * k, L0), dtype=np.float64))
-    ctx.close(ck, cov * k ** (-5.0 / 3), 4 * EPS32, "phase covariance scales as r0^(-5/3)", scale=B0 * k ** (-5.0 / 3), name="r0 scaling B")
+    ctx.close(ck, cov * k ** (-5.0 / 3), 1e-13, "phase covariance scales as r0^(-5/3)", scale=B0 * k ** (-5.0 / 3), name="r0 scaling B")
     # --- Kolmogorov limit (trend): |D_vk/D_kolm - 1| <= 1.6 (r/L0)^(1/3) for r/L0 <= 1e-3 and the ratio grows with L0
     smallr = pos & (rs / L0 <= 1e-3) & (rs / L0 >= 1e-5) & (not f32)
     if smallr.any():
@@ -178,7 +182,7 @@ def hankel_body(ctx, case):
         covr = float(np.asarray(quiet(turb.phase_covariance, r, r0, L0)))
         if rel >= 0.05:
             hb = 2 * (cov0 - covr)
-            ctx.require(abs(h / hb - 0.023 / vk.C_PSD) <= 2e-5 + 64 * EPS32 * 2 * cov0 / hb, "2(B(0)-B(r)) disagrees with the Hankel transform of the screen spectrum: ratio %r at r/L0=%r" % (h / hb, rel))
+            ctx.require(abs(h / hb - 0.023 / vk.C_PSD) <= 2e-5 + 1e-12 * 2 * cov0 / hb, "2(B(0)-B(r)) disagrees with the Hankel transform of the screen spectrum: ratio %r at r/L0=%r" % (h / hb, rel))
     for q in ratios:
         ctx.require(0.99 <= q <= 1.01, "Hankel transform of the screen spectrum / structure_function_vk = %r, outside the rounding band" % q)
     ctx.close(ratios[1], ratios[0], 2e-6, "Hankel(D_psd)/D_vk independent of the separation", scale=1.0, name="hankel ratio constancy")
@@ -186,7 +190,7 @@ def hankel_body(ctx, case):
     # variance: B(0) vs 2 pi 0.023 (3/5) (L0/r0)^(5/3)
     cov0 = float(np.asarray(quiet(turb.phase_covariance, 0.0, r0, L0)))
     v = 2 * math.pi * 0.023 * 0.6 * (L0 / r0) ** (5.0 / 3)
-    ctx.close(cov0 / v, vk.C_PSD / 0.023, 4 * EPS32, "B(0) == integral of the spectrum (up to the rounding of 0.023)", scale=1.0, name="variance vs spectrum")
+    ctx.close(cov0 / v, vk.C_PSD / 0.023, 1e-13, "B(0) == integral of the spectrum (up to the rounding of 0.023)", scale=1.0, name="variance vs spectrum")
 
 
 # ------------------------------------------------------------------ positive semi-definiteness
@@ -222,8 +226,8 @@ def psd_body(ctx, case):
     C = 0.5 * (C + C.T)
     ev = np.linalg.eigvalsh(C)
     B0 = float(vk.B(0.0, r0, L0))
-    ctx.residual("min eigenvalue / (n 8 eps32 B0)", max(0.0, -float(ev[0])) / (n * 8 * EPS32 * B0), 1.0)
-    ctx.require(ev[0] >= -n * 8 * EPS32 * B0, "phase covariance matrix of %d points not positive semi-definite: min eigenvalue %r (B0=%r)" % (n, float(ev[0]), B0))
+    ctx.residual("min eigenvalue / (n 64 eps64 B0)", max(0.0, -float(ev[0])) / (n * 64 * 2.3e-16 * B0), 1.0)
+    ctx.require(ev[0] >= -n * 64 * 2.3e-16 * B0, "phase covariance matrix of %d points not positive semi-definite: min eigenvalue %r (B0=%r)" % (n, float(ev[0]), B0))
 
 
 def large_cases(tier):
@@ -238,13 +242,13 @@ def large_body(ctx, case):
     B0 = float(vk.B(0.0, r0, L0))
     cov = np.asarray(quiet(turb.phase_covariance, r.copy(), r0, L0), dtype=np.float64)
     ctx.require(cov.shape == r.shape, "phase_covariance of a %d-element array: shape %s" % (n, cov.shape))
-    ctx.close(cov, vk.B(r.astype(np.float32).astype(np.float64), r0, L0), 16 * EPS32, "phase_covariance on an array of more than 2^20 separations", scale=B0, name="large array B")
+    ctx.close(cov, vk.B(r, r0, L0), TOLB, "phase_covariance on an array of more than 2^20 separations", scale=B0, name="large array B")
     d = np.asarray(quiet(sc.structure_function_vk, r.copy(), r0, L0), dtype=np.float64)
     KR = 0.17253 / (2 * vk.B0_COEF)
     ctx.close(d, KR * vk.D(r, r0, L0), 1e-7, "structure_function_vk on an array of more than 2^20 separations", scale=2 * B0, name="large array D")
     m = np.resize(r, 1100 * 1000 + 1100 * 7).reshape(1100, 1007)
     c2 = np.asarray(quiet(turb.phase_covariance, m.copy(), r0, L0), dtype=np.float64)
-    ctx.close(c2, vk.B(m.astype(np.float32).astype(np.float64), r0, L0), 16 * EPS32, "phase_covariance on a 1100 x 1007 matrix of separations", scale=B0, name="large matrix B")
+    ctx.close(c2, vk.B(m, r0, L0), TOLB, "phase_covariance on a 1100 x 1007 matrix of separations", scale=B0, name="large matrix B")
 
 
 def self_test():
